@@ -58,7 +58,7 @@ def run(tier, seed, replay=None):
             else:
                 want = m
             got = c["got"]
-            if got.replace(" ", "") != want.replace(" ", "") and not (want == " => error" and got.endswith(" => error")):
+            if re.sub(r"(\[\][^()=,>]*?)\(nil\)", r"\1[]", got.replace(" ", "")) != want.replace(" ", "") and not (want == " => error" and got.endswith(" => error")):
                 nmod += 1
                 if len(res.violations) < 12:
                     res.violation({"property": PID, "kind": "the conversion model (coq/Conv/Convert.v) and the implementation differ", "source": c["src"],
